@@ -27,6 +27,10 @@ struct Cell { long v; char pad[120]; };
 static Cell inbox[64];
 static long created, budget;
 
+// directed program class "late transfer": one designated holder keeps its unit for a while (the token travels up to it
+// and waits there), then hands work to a thread the token has already passed, and only then finishes
+static int lateHolder = -1, lateTarget = 0, lateSpin = 0, lateArmed = 0;
+
 static bool takeUnit(unsigned t) {
   long c = __atomic_load_n(&inbox[t].v, __ATOMIC_SEQ_CST);
   while (c > 0) {
@@ -54,6 +58,13 @@ static void loopOnce(galois::substrate::TerminationDetection& term, unsigned n, 
         did = true;
         YIELD();
         if (jit && r.coin(1, 4)) for (volatile int i = 0; i < (int)r.below(2000); ++i) {}
+        if ((int)tid == lateHolder && __atomic_exchange_n(&lateArmed, 0, __ATOMIC_SEQ_CST) == 1) {
+          for (int k = 0; k < lateSpin; ++k) { YIELD(); if (jit) for (volatile int i = 0; i < 3000; ++i) {} }
+          __atomic_fetch_add(&created, 1, __ATOMIC_SEQ_CST);
+          L->ev(tid, ks("ev", "xfer") + "," + kv("t", tid) + "," + kv("u", lateTarget));
+          __atomic_fetch_add(&inbox[lateTarget].v, 1, __ATOMIC_SEQ_CST);
+          YIELD();
+        }
         // while holding the unit, possibly create work for others (bounded)
         for (int k = 0; k < 2; ++k)
           if (r.coin(1, 2) && __atomic_fetch_add(&created, 1, __ATOMIC_SEQ_CST) < budget) {
@@ -120,6 +131,16 @@ int main(int argc, char** argv) {
             unsigned t = rng.coin(1, 2) ? 0 : (unsigned)rng.below(m);
             inbox[t].v++;
             L->ev(64, ks("ev", "seed") + "," + kv("t", t));
+          }
+          lateHolder = -1; lateArmed = 0;
+          if (m >= 3 && e % 3 == 2) {
+            // the holder is not thread 0 and not necessarily the last one; the target lies behind it in the ring / tree order
+            lateHolder = 1 + (int)rng.below(m - 1);
+            lateTarget = (int)rng.below((unsigned)lateHolder);
+            lateSpin = 5 + (int)rng.below(mode == "ctl" ? 60 : 400);
+            lateArmed = 1;
+            inbox[lateHolder].v++;
+            L->ev(64, ks("ev", "seed") + "," + kv("t", lateHolder));
           }
           galois::substrate::TerminationDetection* term;
           if (det) { tree.arm(m); term = &tree; }
